@@ -852,11 +852,20 @@ def hDir : List PV → M PV
   | [o] => prim { kind := .dir, subj := o }
   | _ => throwE .typeError
 
-/-- `_access_attr(type(obj), op, (), "_rpyc_getattr", "allow_getattr", getattr)(obj, other)` -/
+/-- `_handle_cmp(obj, other, op)`: an object whose type defines its own attribute hook decides by that hook, as for
+every other access by name - `if getattr(type(obj), "_rpyc_getattr", None) is not None:
+return _access_attr(obj, op, (), "_rpyc_getattr", "allow_getattr", getattr)(other)`; any other object takes
+`_access_attr(type(obj), op, (), "_rpyc_getattr", "allow_getattr", getattr)(obj, other)` (the operator is looked up on
+the type, under the connection's policy) -/
 def hCmpCore (obj other op : PV) : M PV := do
   let ty ← prim { kind := .typeOf, subj := obj }
-  let f ← accessAttr ty op [] .get
-  prim { kind := .apply, subj := f, args := [obj, other] }
+  let own ← prim { kind := .hookLookup, subj := obj, name := overrider .get }
+  if !isNone own then do
+    let f ← accessAttr obj op [] .get
+    prim { kind := .apply, subj := f, args := [other] }
+  else do
+    let f ← accessAttr ty op [] .get
+    prim { kind := .apply, subj := f, args := [obj, other] }
 
 def hCmp : List PV → M PV
   | [o, x] => hCmpCore o x (.imm (.str (cp "__cmp__")))
@@ -1258,7 +1267,7 @@ def modelledTouches : List (String × List String) :=
    ("_handle_call", ["<call>", "<kwsplat>", "<splat>", "dict", "raise:TypeError", "type"]),
    ("_handle_callattr", ["<call>", "<kwsplat>", "<splat>", "dict", "raise:TypeError", "self._access_attr", "type"]),
    ("_handle_close", ["self._cleanup"]),
-   ("_handle_cmp", ["<call>", "self._access_attr", "type"]),
+   ("_handle_cmp", ["<call>", "getattr", "self._access_attr", "type"]),
    ("_handle_ctxexit", ["<call>", "raise:<var>", "self._access_attr", "sys.exc_info", "truth:<var>"]),
    ("_handle_del", ["get_id_pack", "raise:TypeError", "self._local_objects.decref", "type"]),
    ("_handle_delattr", ["self._access_attr"]),
